@@ -123,3 +123,30 @@ func VerifH_C13_Garbage() {
 	vfAssert(msg != nil, "Receive returns nil")
 	vfReach("survived")
 }
+
+// a forged, unsecured OpenSecureChannel chunk naming policy #None, followed by an unsigned
+// MSG chunk, on an established secured server channel (which keeps an opening instance):
+// neither may be delivered, and the OPN header of an unauthenticated chunk must not switch
+// the channel to "no security".
+func VerifH_C09_ForgedOPN() {
+	pi, mode, cn, sn := vfC09Setup()
+	sec, _ := NewAsymmetricSecurityHeader(ua.SecurityPolicyURINone, nil, nil).Encode()
+	n := vfConcrete(vfInt("payloadLen", 0, vfParam("c09.opnlen", 24)))
+	opn := make([]byte, 12)
+	copy(opn, "OPNF")
+	opn = append(append(opn, sec...), vfBytes("payload", n)...)
+	binary.LittleEndian.PutUint32(opn[4:], uint32(len(opn)))
+	binary.LittleEndian.PutUint32(opn[8:], 5)
+	resp := vfC07Resp([]byte{1, 2, 3})
+	plain, _ := ua.Encode(resp)
+	typeID, _ := ua.Encode(ua.NewFourByteExpandedNodeID(0, 470))
+	msgChunk := vfChunk('F', 5, 9, 11, 78, append(typeID, plain...)) // no signature, not encrypted
+	stream := append(append([]byte{}, opn...), msgChunk...)
+	rcv := vfNewEnd("rcv", server, pi, mode, sn, cn, vfC09Ack, stream, 5, 9, 0)
+	rcv.sc.openingInstance = rcv.inst // as NewServerSecureChannel / handleOpenSecureChannelRequest leave it
+	m1 := rcv.sc.Receive(context.Background())
+	vfAssert(m1 == nil || m1.Err != nil || m1.body == nil, "a forged unsecured OpenSecureChannel chunk is accepted on a secured channel")
+	m2 := rcv.sc.Receive(context.Background())
+	vfAssert(m2 == nil || m2.Err != nil, "an unsigned chunk is delivered on a secured channel after a forged OPN chunk")
+	vfReach("forgedopn")
+}
